@@ -65,6 +65,11 @@ def run(tier):
     res = vlib.run_harness("fv-subset", ["c17", "biggvar", "--out", t3], timeout=3000)
     ck.add_harness("record:biggvar", res, traces=False)
     validate(ck, wd, "biggvar", t3)
+    # a request that needs more format 4 segments than 64 KiB hold: the subset opens and maps every requested character
+    t3b = os.path.join(wd, "bigcmap.ndjson")
+    res = vlib.run_harness("fv-subset", ["c17", "bigcmap", "--out", t3b], timeout=3000)
+    ck.add_harness("record:bigcmap", res, traces=False)
+    validate(ck, wd, "bigcmap", t3b)
     # the object serializer every rebuilt table goes through: Serializer.tla's call sequences replayed on klippa::serialize
     r = vlib.run_tlc(wd, "Serializer", cfg="Serializer_%s.cfg" % tier, workers=8 if tier == "quick" else 14, timeout=3400, xmx="12g", out_name="serializer.out")
     ck.add_tlc("tlc:Serializer", r)
